@@ -44,7 +44,7 @@ BOUND = (
     "Positive equity curves of length 2-400 on Monday-Friday date indexes starting 2015-12-21, 2020-12-21, "
     "2024-02-20, 2023-12-20, 2019-12-23 or 2018-06-01 (crossing month, year, leap-day and ISO-week-53/1 "
     "boundaries), index either datetime.date objects (what the backtest produces) or a DatetimeIndex, "
-    "periods in {252, 252, 52, 12, 365}; kinds: monotone up, monotone down, first-point-is-peak, flat stretches, "
+    "periods in {252, 252, 52, 12, 365, 365.25, 50.4} (annualisation factors need not be whole numbers); kinds: monotone up, monotone down, first-point-is-peak, flat stretches, "
     "random walks, down-then-up, exact-level curves (exact ties with earlier peaks) and the small curves made of "
     "daily factors {0.9, 1.0, 1.1}. Each curve is also re-run multiplied by one of {0.001, 3, 1234.5678, 1e6}. "
     "quick: seeded sample of 200 curves (random.Random(seed)): 4 fixed, 70 of the small curves, 6 year-spanning curves (one per kind, length 262-400) and 120 sampled curves. "
@@ -313,6 +313,30 @@ def _vals(tuple_list):
     return [v for _, v in tuple_list]
 
 
+def _check_hc(acc, case, block, dates, rr, via):
+    """the chart-ready forms of the aggregates carry the same numbers: monthly [month-1, year ordinal, 100 x value] for every
+       (year, month) of the curve, yearly 100 x value in year order"""
+    exp_m = spec_aggregate(dates, rr, 'monthly')
+    years = sorted({k[0] for k in exp_m})
+    got = {}
+    dup = False
+    for row in block.get('monthly_agg_returns_hc', []):
+        try:
+            key = (years[int(row[1])], int(row[0]) + 1)
+        except Exception:
+            key = ('bad-row', tuple(row))
+        dup = dup or key in got
+        got[key] = float(row[2]) / 100.0
+    ok = (not dup) and sorted(got, key=str) == sorted(exp_m, key=str) and all(_close(got[k], exp_m[k]) for k in exp_m)
+    acc.check('monthly-aggregates-compound-to-total', ok, case, {'via': via, 'what': 'monthly_agg_returns_hc'},
+              sorted(got.items(), key=str)[:6], sorted(exp_m.items())[:6])
+    exp_y = spec_aggregate(dates, rr, 'yearly')
+    want = [exp_y[k] for k in sorted(exp_y)]
+    goty = [float(v) / 100.0 for v in block.get('yearly_agg_returns_hc', [])]
+    ok = len(goty) == len(want) and all(_close(a, b) for a, b in zip(goty, want))
+    acc.check('yearly-aggregates-compound-to-total', ok, case, {'via': via, 'what': 'yearly_agg_returns_hc'}, goty[:6], want[:6])
+
+
 def _reporters(dates, equity, flavour, periods):
     """Run the two real reporters on one curve; returns (json_stats_dict, tearsheet_dict) or error strings."""
     idx = _index(dates, flavour)
@@ -434,6 +458,7 @@ def _run_case_inner(case, acc):
         exp = spec_aggregate(dates, r, kind)
         ok = sorted(got) == sorted(exp) and all(_close(got[k], exp[k]) for k in exp)
         acc.check(clause, ok, case, {'via': 'json', 'what': key}, sorted(got.items())[:6], sorted(exp.items())[:6])
+    _check_hc(acc, case, js, dates, r, 'json')
     exp = _call(spec_cagr, total, n, periods)
     if not isinstance(exp, str):
         acc.check('cagr', _close(js['cagr'], exp), case, {'via': 'json'}, js['cagr'], exp)
@@ -461,6 +486,7 @@ def _run_case_inner(case, acc):
                 ok = sorted(got) == sorted(exp) and all(_close(got[k], exp[k]) for k in exp)
                 acc.check('%s-aggregates-compound-to-total' % kind, ok, case, {'via': 'json+benchmark', 'block': block, 'what': key},
                           sorted(got.items())[:6], sorted(exp.items())[:6])
+            _check_hc(acc, case, jb[block], dates, rr, 'json+benchmark/' + block)
             exp = _call(spec_cagr, tot, n, periods)
             if not isinstance(exp, str):
                 acc.check('cagr', _close(jb[block]['cagr'], exp), case, {'via': 'json+benchmark', 'block': block}, jb[block]['cagr'], exp)
@@ -612,7 +638,7 @@ def _gen_curve(rng, kind=None, n=None):
         e = [e0]
         for _ in range(n - 1):
             e.append(e[-1] * math.exp(rng.gauss(drift, sigma)))
-    return _mk(kind, rng.choice(STARTS), rng.choice(('date', 'ts')), rng.choice((252, 252, 52, 12, 365)),
+    return _mk(kind, rng.choice(STARTS), rng.choice(('date', 'ts')), rng.choice((252, 252, 52, 12, 365, 365.25, 50.4)),
                rng.choice(SCALES), e)
 
 
